@@ -5,30 +5,6 @@ From Coq Require Import List Bool Arith Lia.
 Import ListNotations.
 Require Import PonyV.Model.C04Expr PonyV.Model.C04Known PonyV.Gen.Priority PonyV.Proofs.C04Kinds.
 
-Definition table_ok (good : kind -> nat -> kind -> bool) : bool :=
-  forallb (fun p => forallb (fun i => forallb (fun c => good p i c) all_kinds) all_pos) all_kinds.
-
-Lemma table_ok_spec : forall good, table_ok good = true -> forall p i c, In i all_pos -> good p i c = true.
-Proof.
-  intros good H p i c Hi. unfold table_ok in H.
-  rewrite forallb_forall in H. specialize (H p (all_kinds_complete p)).
-  rewrite forallb_forall in H. specialize (H i Hi).
-  rewrite forallb_forall in H. exact (H c (all_kinds_complete c)).
-Qed.
-
-Lemma npos_le_3 : forall p, npos p <= 3.
-Proof. destruct p; simpl; lia. Qed.
-
-Lemma allowed_pos : forall p i c, allowed p i c = true -> In i all_pos.
-Proof.
-  intros p i c H. unfold allowed in H. apply andb_prop in H. destruct H as [H _].
-  apply Nat.ltb_lt in H. pose proof (npos_le_3 p). unfold all_pos. simpl.
-  destruct i as [|[|[|i]]]; auto; lia.
-Qed.
-
-Lemma ref_needs_pos : forall p i c, ref_needs p i c = true -> In i all_pos.
-Proof. intros p i c H. unfold ref_needs in H. apply andb_prop in H. destruct H as [H _]. eapply allowed_pos; eauto. Qed.
-
 (* the code's rule covers the grammar's rule outside the known list *)
 Lemma table_except_known : forall p i c, ref_needs p i c = true -> known_bad p i c = false -> pony_needs p i c = true.
 Proof.
